@@ -22,6 +22,10 @@ from . import c14, c02, c03, c04
 
 
 def body(led):
+    # Python-layer premise of the closed-form clause: a plate made specially orthotropic through force_orthotropic_laminate is
+    # integrated with the coupling terms removed by every kernel
+    from . import py_panel
+    py_panel.check_one_laminate(led)
     led.assume('C15: Cauchy interlacing / Rayleigh-Ritz min-max theorem (cited): eigenvalues of nested Gram pencils are monotone and bound the continuum values from above')
     led.assume('C15: the limit clause (convergence to the closed forms as m,n grow) and floating-point eigen-solver behaviour are not decidable by contracts; not claimed')
     func = 'premise(C15): nested trial spaces'
